@@ -15,6 +15,7 @@ Python maps lattice cases to esutil calls, evaluates the returned binary64 numbe
 """
 import math
 import random
+import warnings
 from fractions import Fraction
 
 import numpy as np
@@ -86,6 +87,21 @@ def iv(a, b, sc):
     return math.ldexp(a, sc), math.ldexp(b, sc)
 
 
+QCAP = 2 ** 29          # = Quadrature!QCap
+
+
+def local_moments(a, b, cap):
+    """(moment, max|x^k|) for k = 0.. as far as Quadrature!MomentFits allows, for an interval the exported table does
+    not hold.  Only a projection aid: the trace module recomputes QMomentSeq itself and rejects any other value."""
+    out = {}
+    for k in range(cap + 1):
+        if abs(a) ** (k + 1) > QCAP or abs(b) ** (k + 1) > QCAP:
+            break
+        m = Fraction(b ** (k + 1) - a ** (k + 1), k + 1)
+        out[k] = ([m.numerator, m.denominator], max(abs(a), abs(b)) ** k)
+    return out
+
+
 def rule_record(src, a, b, sc, n, xs, ws, err="none", lin=(), tolmul=1, seed=0, kcapn=None):
     """project one observed rule (floats) for the lattice interval [a,b]*2^sc"""
     T = _T
@@ -115,7 +131,7 @@ def rule_record(src, a, b, sc, n, xs, ws, err="none", lin=(), tolmul=1, seed=0, 
     told = Fraction(T["told"], tolmul) if tolmul == 1 else Fraction(T["told"] * 1000, int(tolmul * 1000))
     width = abs(b - a)
     # x-monomials, as far as the spec's moments reach
-    mt = T["mom"].get((a, b), {})
+    mt = T["mom"].get((a, b)) or local_moments(a, b, min(2 * n - 1, kcapx))
     kx = -1
     while kx + 1 in mt and kx + 1 <= min(2 * n - 1, kcapx):
         kx += 1
@@ -153,16 +169,42 @@ def rule_record(src, a, b, sc, n, xs, ws, err="none", lin=(), tolmul=1, seed=0, 
     return rec
 
 
+# how the two end points are handed to gauleg: the same real interval as another number type.  Every (a, b, sc)
+# used with a type is exactly representable in it, so the interval - and hence the rule demanded - is unchanged.
+ENDPOINT_TYPES = {
+    "float": float, "int": int, "np.float64": np.float64, "np.float32": np.float32, "np.int8": np.int8, "np.int16": np.int16,
+    "np.int64": np.int64, "np.uint8": np.uint8, "0-d array": lambda v: np.array(v, dtype="f8"),
+}
+# (a, b, sc, type): sums / differences of the end points that are NOT representable in the type although the end
+# points are (a float32 mantissa has 24 bits; 100 + 120 overflows int8; 200 - 250 underflows uint8)
+TYPED_INTERVALS = [
+    (1, 2 ** 24, 0, "np.float32"), (3, 2 ** 25 + 4, -30, "np.float32"), (-(2 ** 24), 5, 0, "np.float32"), (1, 3, 0, "np.float32"),
+    (100, 120, 0, "np.int8"), (-100, -128, 0, "np.int8"), (-3, 5, 0, "np.int8"), (30000, 32000, 0, "np.int16"),
+    (200, 250, 0, "np.uint8"), (250, 200, 0, "np.uint8"), (2 ** 28, 2 ** 28 + 2 ** 20, 30, "np.int64"),
+    (-2, 7, 0, "int"), (-1, 1, 0, "np.float64"), (0, 3, 0, "0-d array"), (2 ** 27, 2 ** 27 + 4096, 26, "int"),
+]
+
+
 def obs_gauleg(args):
-    a, b, sc, n, seed, kcapn = args
+    a, b, sc, n, seed, kcapn = args[:6]
+    etype = args[6] if len(args) > 6 else None
     from esutil.integrate import gauleg
     A, Bf = iv(a, b, sc)
+    if etype:
+        conv = ENDPOINT_TYPES[etype]
+        A, Bf = (conv(a), conv(b)) if sc == 0 else (conv(A), conv(Bf))
+        if float(A) != math.ldexp(a, sc) or float(Bf) != math.ldexp(b, sc):
+            raise MachineryError("end points (%d, %d)*2^%d are not representable as %s" % (a, b, sc, etype))
     try:
-        with np.errstate(all="ignore"):
+        with np.errstate(all="ignore"), warnings.catch_warnings():
+            warnings.simplefilter("ignore")
             x, w = gauleg(A, Bf, n)
-        return rule_record("gauleg", a, b, sc, n, list(x), list(w), seed=seed, kcapn=kcapn)
+        rec = rule_record("gauleg", a, b, sc, n, list(x), list(w), seed=seed, kcapn=kcapn)
     except Exception as e:  # noqa
-        return rule_record("gauleg", a, b, sc, n, [], [], err=type(e).__name__, seed=seed, kcapn=kcapn)
+        rec = rule_record("gauleg", a, b, sc, n, [], [], err=type(e).__name__, seed=seed, kcapn=kcapn)
+    if etype:
+        rec["etype"] = etype
+    return rec
 
 
 # ---- integrators ---------------------------------------------------------------------------
@@ -483,6 +525,8 @@ def signature(r, clause):
         cls = nclass(r["n"])
         if r["a"] > r["b"] and clause not in ("nonfinite", "unexpected_error"):
             cls += ";a>b"
+        if r.get("etype"):
+            cls += ";endpoints=" + r["etype"]
         return "%s|%s|%s" % (entry, clause, cls)
     if k == "data":
         return "integrators|%s|%s" % ("nonfinite" if clause == "nonfinite" else "data:" + clause, nclass(r["n"]))
@@ -500,7 +544,7 @@ def signature(r, clause):
 def replay_case(r):
     k = r["k"]
     if k == "rule":
-        return {"kind": "rule", "src": r["src"], "a": r["a"], "b": r["b"], "sc": r["sc"], "n": r["n"],
+        return {"kind": "rule", "src": r["src"], "a": r["a"], "b": r["b"], "sc": r["sc"], "n": r["n"], "etype": r.get("etype"),
                 "observed": {f: r[f] for f in ("err", "finite", "nx", "nw", "asc", "wsg", "xsym", "wsym") if f in r},
                 "off_degrees": {f: [i for i, v in enumerate(r[f]) if v == rq.OFF] for f in ("mom", "nmom", "cheb")}}
     if k == "data":
@@ -667,6 +711,15 @@ def run(ctx):
             ctx.sample({"gauleg": {f: r[f] for f in ("a", "b", "sc", "n")}, "moments_recorded": r["mom"][:4], "cheb_recorded": r["cheb"][:4],
                         "degrees_checked": [len(r["mom"]), len(r["nmom"]), len(r["cheb"])]})
         ctx.note(gauleg_rules=len(gc))
+        # 1a. the same intervals handed over as other number types (numpy scalars of every width, python ints, 0-d arrays)
+        tn = (1, 2, 5, 12) if ctx.quick else (1, 2, 3, 5, 8, 12, 31, 100)
+        tc = [(a, b, sc, n, ctx.seed, None, et) for (a, b, sc, et) in TYPED_INTERVALS for n in tn]
+        trecs = pmap(obs_gauleg, tc, chunk=16)
+        for r in trecs:
+            ctx.count(("typed", r["etype"], r["a"], r["b"], r["sc"], r["n"]))
+        judge(ctx, trecs, "judge gauleg rules for typed end points (QuadratureTrace)", count=False)
+        allrecs += trecs
+        ctx.note(gauleg_typed_endpoint_rules=len(tc))
     # 1b. thorough: full degree 2n-1 for every n <= 200 on [-1,1] and [0,1]
     if part("fulldegree") and not ctx.quick:
         load_tables(ctx, B, kcapn=KCAPN_FULL, what="export moments to degree %d" % KCAPN_FULL)
@@ -794,7 +847,7 @@ def replay(ctx, case):
     k = case["kind"]
     if k == "rule":
         if case["src"] == "gauleg":
-            r = obs_gauleg((case["a"], case["b"], case["sc"], case["n"], ctx.seed, None))
+            r = obs_gauleg((case["a"], case["b"], case["sc"], case["n"], ctx.seed, None, case.get("etype")))
         elif case["src"].startswith("QGauss2"):
             print("replay: marginal rules are re-derived from their QGauss2 case; replaying the shape (n,n)")
             rec, rules = obs_tensor((1, case["n"], case["n"], 0, ctx.seed))
